@@ -124,6 +124,7 @@ def run(ctx):
     tl, tm = [], []
     # A = large dictionary, little data; B = tiny dictionary, large input/output buffers; C = in between.  Fixed orders (what the
     # next Block needs - filters or buffers - after what the earlier ones left allocated or cached) and shuffled ones
+    mll, mlm = [], []
     fixed_orders = ['AAB', 'ABA', 'BAA', 'ACBA', 'BBA', 'AAABB', 'BAB', 'CACB']
     for it in range(len(fixed_orders) + (2 if ctx.quick() else 40)):
         blocks = []
@@ -142,7 +143,18 @@ def run(ctx):
                 tl.append('mem 1 0 %d %d %s' % (lim, th, f.hex())); tm.append(('threading', lim, single, o1[0].split()))
         for lim in (single - 1, single, single + 1):
             tl.append('mem 7 0 %d 3 %s' % (lim, f.hex())); tm.append(('stop', lim, single, o1[0].split()))
+        # the hard limit lowered with lzma_memlimit_set() on a decoder that was created with generous limits
+        for th in (2, 4):
+            mll.append('mlset %d %d %s' % (th, single + 200000, f.hex())); mlm.append((single + 200000, single, o1[0].split()))
     touts, tf = run_lines(drv, tl)
+    mlo, mlf = run_lines(drv, mll)
+    for x in mlf: viol.append(dict(why='threaded decoder crashed after lzma_memlimit_set', line=(x[0] or '')[:300], stderr=x[1][-2000:]))
+    for (hard, single, bt), l, o in zip(mlm, mll, mlo):
+        if o is None: continue
+        t = o.split()
+        if t[0] != '0': viol.append(dict(why='lzma_memlimit_set(%d) on a fresh threaded decoder returned %s' % (hard, t[0]), line=l[:4000000], stderr=''))
+        elif t[1] != '1' or t[4] != bt[9]: viol.append(dict(why='threaded decoder after lzma_memlimit_set(%d): status %s / output differs' % (hard, t[1]), line=l[:4000000], stderr=''))
+        elif int(t[2]) > hard + ALLOWANCE + 70000: viol.append(dict(why='threaded decoder allocated %s bytes after the hard limit had been lowered to %d with lzma_memlimit_set() (a single thread needs %d)' % (t[2], hard, single), line=l[:4000000], stderr=''))
     # the same limits on the schedule-perturbed build: a 64 KiB-dictionary Block small enough to run beside a 4 MiB one,
     # so that a second worker can finish between the memory decision and the thread pick
     mdrv = compile_driver('mt', 'drv_alloc.c', 'drv_alloc')
@@ -208,7 +220,7 @@ def run(ctx):
             if not expect_fail and r.returncode != 0: viol.append(dict(why='xz %s failed: %s' % (' '.join(args[:-1]), r.stderr.decode()[:200]), line='', stderr=''))
     finally:
         shutil.rmtree(td, ignore_errors=True)
-    ctx.cov['evaluations'] = len(lines) + len(elines) + len(tl) + len(rl) + len(rel) + len(ol) + 4 + len(cases) + len(pl) * (10 if ctx.quick() else 60)
+    ctx.cov['evaluations'] = len(lines) + len(elines) + len(tl) + len(rl) + len(rel) + len(ol) + len(mll) + 4 + len(cases) + len(pl) * (10 if ctx.quick() else 60)
     ctx.cov['distinct_nontrivial'] = len(stat) + len(emeta) + len(set((m[0], m[1] >= m[2]) for m in tm))
     ctx.cov['rule'] = 'decoders (stream, alone, auto, lzip, index, file_info) x dictionary sizes x limits {1, need/2, need-70000, need-1, need, need+1}; encoder estimates vs measured peak for 6 entry points x presets; threaded decoder on multi-Block files with varying chains under memlimit_threading (1x..3x single-thread need) and memlimit_stop (need-1, need, need+1); xz with user limits; distinct = (limit >= need?, error seen?) etc.'
     ctx.cov['input_distribution'] = dict(limited_runs=len(lines), estimate_runs=len(elines), mt_runs=len(tl))
